@@ -36,6 +36,7 @@ G0 == [cgone  |-> No,        \* the client closed (or half-closed) its socket
        rout   |-> Zero,      \* bytes the client has sent that its bridge partner must receive
        base   |-> Zero,      \* the client's received-byte total at the point its relayed stream starts
        rxn    |-> Zero,      \* received-byte totals at the previous event
+       stall  |-> No,        \* the client is not reading its socket for the moment (a slow receiver)
        pdrep  |-> No,        \* partner-not-disconnected already reported for this client
        lrep   |-> No]        \* loss already reported for what this client sends
 
@@ -127,7 +128,11 @@ Eval(e) ==
         cand == [x \in Cl |-> {t \in Cl : ~gone2[t] /\ claim2[x] # 0 /\ claim2[x] \in regids2[t]}]
         claims == {x \in Cl : claim2[x] # 0 /\ ~gone2[x] /\ cand[x] # {}}
         claimBad == IF isSend /\ ok /\ a2.claim # 0 /\ ~ClaimsOk(claims, cand) THEN {"C25.double-claim"} ELSE {}
-        lost == {a \in Cl : LET b == br2[a] IN b # 0 /\ br2[b] = a /\ ~gone2[a] /\ ~gone2[b] /\ ~g.lrep[a]
+        stall2 == IF e.op = "stall" /\ c \in Cl THEN [g.stall EXCEPT ![c] = TRUE]
+                  ELSE IF e.op = "unstall" /\ c \in Cl THEN [g.stall EXCEPT ![c] = FALSE]
+                  ELSE IF Has(e, "unstalled") /\ e.unstalled = 1 THEN No ELSE g.stall
+        \* (what a stalled receiver has not read yet is not lost: it is judged once it reads again)
+        lost == {a \in Cl : LET b == br2[a] IN b # 0 /\ br2[b] = a /\ ~gone2[a] /\ ~gone2[b] /\ ~g.lrep[a] /\ ~stall2[b]
                                        /\ (gotn2[b] # Len(post2[a]) \/ Rxn(e, b) - base2[b] # rout2[a])}
         lossBad == IF lost # {} THEN {"C25.loss-or-reorder"} ELSE {}
         pd == {a \in Cl : br2[a] # 0 /\ gone2[a] /\ ~gone2[br2[a]] /\ ~g.pdrep[a]}
@@ -141,7 +146,7 @@ Eval(e) ==
                idb |-> IF isSend THEN [g.idb EXCEPT ![c] = a2.idb] ELSE g.idb,
                idone |-> IF bridging THEN [g.idone EXCEPT ![c] = TRUE] ELSE g.idone,
                br |-> br2, pre |-> pre2, post |-> post2, gotn |-> gotn2, rout |-> rout2, base |-> base2,
-               rxn |-> [x \in Cl |-> Rxn(e, x)],
+               rxn |-> [x \in Cl |-> Rxn(e, x)], stall |-> stall2,
                pdrep |-> [x \in Cl |-> g.pdrep[x] \/ x \in pd],
                lrep |-> [x \in Cl |-> g.lrep[x] \/ x \in lost]]
     IN [g |-> g2, bad |-> bad, bridged |-> paired, ntok |-> ntok]
@@ -155,7 +160,7 @@ Step(e) ==
                    ELSE Append(viol, Fail(l, {IF e.kind = "sanitizer" THEN "C26.sanitizer/" \o e.san ELSE "C26.crash"}, e))
         /\ poisoned' = TRUE /\ UNCHANGED <<g, stats>>
     [] poisoned -> UNCHANGED <<viol, poisoned, g, stats>>
-    [] e.op \in {"open", "send", "close", "shutwr", "final"} ->
+    [] e.op \in {"open", "send", "close", "shutwr", "final", "stall", "unstall"} ->
         LET r == Eval(e) IN
         /\ g' = r.g
         /\ viol' = IF r.bad = {} THEN viol ELSE Append(viol, Fail(l, r.bad, [op |-> e.op, c |-> Fld(e, "c", 0)]))
